@@ -37,7 +37,7 @@ CLAIMS = {
              'symbol": layout agreement of control blocks with the views generic code casts them to, dispatch agreement, duplicate '
              'suppression dominating every state update, equivalence of the two submission APIs, completion implies all k slots filled '
              '(monotone), and a closed classification of every store into a symbol table.',
-        design_ref='DESIGN.md section 6 C01; rules R-LAYOUT, R-DISPATCH, R-DUP, R-SETAVAIL, R-COMPLETE, R-SRCSTORE, R-SRCPTR, R-SIBLINGS, R-INIT-ORDER, R-SYMTAB-WRITERS, R-IT-REGISTER, R-COPY-SCALE (11.2)',
+        design_ref='DESIGN.md section 6 C01; rules R-LAYOUT, R-DISPATCH, R-DUP, R-SETAVAIL, R-COMPLETE, R-SRCSTORE, R-SRCPTR, R-SIBLINGS, R-INIT-ORDER, R-SYMTAB-WRITERS, R-IT-REGISTER, R-COPY-SCALE, R-CB, R-KEA (11.2)',
         note='Decides only these structural clauses; does NOT decide that decoded bytes are right (value-level). ' + BASE,
         technique='layout comparison from debug info; dominance/guard rules over the CFG; value-origin classification of stores'),
     'C02': dict(
@@ -45,7 +45,7 @@ CLAIMS = {
              'trigger decoding when the k-th distinct symbol is counted, through either submission API; the GF tables are the documented '
              'fields; the three copies of the GF matrix algebra (inversion, Vandermonde inversion, product, addmul) and the two RS API '
              'layers agree event for event (R-SIBLINGS). Structural necessary conditions of the MDS property.',
-        design_ref='DESIGN.md section 6 C02; rules R-RS-THRESHOLD, R-DUP, R-SETAVAIL, R-COMPLETE, R-TABLES, R-POLY, R-SIBLINGS (11.2)',
+        design_ref='DESIGN.md section 6 C02; rules R-RS-THRESHOLD, R-DUP, R-SETAVAIL, R-COMPLETE, R-TABLES, R-POLY, R-SIBLINGS, R-ENC-LOOP, R-NULLSLOT, R-CB, R-SRCSTORE, R-KEA on the GF kernels (11.2)',
         note='Does NOT decide that the generator is MDS or that inversion succeeds (value-level). n <= 2^m-1 is not enforced by the '
              'GF(2^m) codec: recorded as a known finding of C09. ' + BASE,
         technique='dominance/guard rules on the counters and the decode call; constant-data comparison'),
@@ -60,7 +60,7 @@ CLAIMS = {
         text='One rule per sentence: finish_decoding returns OK only on complete paths and FAILURE only after a negative completion test '
              '(error edges removed by an inter-procedural error-edge analysis); submission routines return only OK; completion predicate '
              'discipline; received source pointers are stored and copied out as given.',
-        design_ref='DESIGN.md section 6 C10; rules R-FINISH-TRUTH, R-RETSET, R-COMPLETE, R-RS-THRESHOLD, R-SRCPTR, R-SRCSTORE, R-SIBLINGS (11.2)',
+        design_ref='DESIGN.md section 6 C10; rules R-FINISH-TRUTH, R-RETSET, R-COMPLETE, R-RS-THRESHOLD, R-SRCPTR, R-SRCSTORE, R-SIBLINGS, R-CB (11.2)',
         note='Decides status/completion agreement per path; does not decide that the counters/tables are right on every history. ' + BASE,
         technique='path rules over the CFG with error edges removed; return-set analysis; dominance of flag stores'),
     'C11': dict(
@@ -190,7 +190,7 @@ CLAIMS = {
              '(sources first), completion scan, duplicate suppression, table-store classification, NULL-slot contract, encoder '
              'accumulation, read-only sources, release completeness, and the mixed-radix rule showing that row checks and column checks '
              'of the generated matrix each cover every source symbol exactly once.',
-        design_ref='DESIGN.md section 6 C16; rules R-LAYOUT, R-DISPATCH, R-APIGUARD, R-SETAVAIL, R-COMPLETE, R-DUP, R-SRCSTORE, R-SRCPTR, R-NULLSLOT, R-ENC-LOOP, R-RO-FLOW, R-2D-RADIX, R-OWN-FIELD, R-OWN-ELEM, R-SIBLINGS, R-INIT-ORDER, R-2D-DIVISIBLE (11.2)',
+        design_ref='DESIGN.md section 6 C16; rules R-LAYOUT, R-DISPATCH, R-APIGUARD, R-SETAVAIL, R-COMPLETE, R-DUP, R-SRCSTORE, R-SRCPTR, R-NULLSLOT, R-ENC-LOOP, R-RO-FLOW, R-2D-RADIX, R-OWN-FIELD, R-OWN-ELEM, R-OWN-LOCAL, R-INIT-ORDER, R-2D-DIVISIBLE (11.2)',
         note='Does NOT decide completeness of erasure recovery nor that the factorisation search accepts exactly the right (k, n-k). Five '
              'defects of this codec were repaired (see known_findings.json "fixed"). ' + BASE,
         technique='layout comparison, dominance, loop-range and affine-stride (mixed radix) rules, ownership analysis'),
